@@ -202,6 +202,23 @@ ADDED = {
     'C19': 'Also: a constant that may be a proper fraction never gets a printing priority above that of division (E3).',
 }
 
+# rules added after rounds 2 and 3 of seeded changes (DESIGN.md 4a-bis, 4f)
+ADDED2 = {'C01': "After rounds 2 and 3: the substitution rule puts only closed terms under binders (K10); the step checker tests a primitive step's argument against the class in the dispatch table (K11); the term predicates the rules rely on traverse every sub-term (K12); abstract_over binds only leaves of the abstracted variable's kind (K13).", 'C02': "And: can_depend_on answers no wherever the identifiers differ before the cited line's last component and yes only after the prefix comparison (P10).", 'C03': 'And: equality consults identity, kind tag and structural fields only (I2 reads-structure-only); abstraction respects the kind distinction equality makes (I6).',
+    'C04': 'And: memo guard symmetry for the auto macro (M7); no discarded result of a proof-term combinator (M8); the goal / premise is taken apart only after its head connective was tested (M9); no case accepted by the fast path is impossible for the expansion over their common tests (M10); a constructed result carries the hypotheses of every premise the expansion uses (M11).',
+    'C05': 'And: a quotient or inverse is simplified only behind a non-zero test of the evaluated denominator (T7).',
+    'C06': 'And: the registered bound name is the name the body is opened with (Z1); the occurrence test that drops vacuous quantifiers before translation traverses every sub-term (Z5).',
+    'C07': 'And: no printing function returns a list it keeps while consumers modify printed output in place (W5); binders are bracketed in every operand position (W1 binder children).',
+    'C08': 'And: no class-level container of the kernel classes is filled through an instance (U6); the recursions that clear, restore and search annotations traverse every sub-term (U7).',
+    'C09': 'And: Type.match_incr completes per kind only behind the equality / constructor tests (N5); a schematic variable is bound only after its type was matched (N6); the occurrence tests of the matcher traverse every sub-term (N7).',
+    'C10': 'And: dest_atom and to_exponent_form agree as decision tables (V6); the polynomial normaliser hands the argument of a coercion to the normaliser of the source type (V7).',
+    'C11': 'And: an overloaded instance passes a universal is_tconst test (D5); the collection of type variables of a defining equation traverses every sub-term (D6).',
+    'C12': 'And: every table of a newly built theory is a fresh object (L8).',
+    'C13': "And: citation rewriting descends into subproofs (A7); a method is applied only to facts the goal can depend on, by the checker's predicate (A8).", 'C14': 'Also: a suggestion records the goal and fact order given to its search (S4); a method that asserts the number of facts suggests itself only for that number (S5).',
+    'C18': 'And: no state that outlives an evaluation (R7); hand-written walks account for the component they stop at (R8); a premise or literal is taken apart only after its head connective was tested (R9, 124 sites); no contradiction with the expansion over common tests (R10); no unread part next to a doubled comparison (R11); hypotheses of every premise the expansion uses (R12).',
+    'C19': "And: a flag collecting 'all side conditions hold' over a loop is only lowered (E4).", 'C15': 'And: unit propagation counts unassigned literals, not variables (X6).',
+    'C16': 'And: every result of a dark-shadow sub-search passes a function that turns a contradiction into no conclusion for the mode in force (O3).',
+    'C20': 'And: substitution on program expressions rebuilds the same node over all substituted parts (P4).'}
+
 
 def main():
     checks = []
@@ -209,6 +226,8 @@ def main():
         short, technique, text, note = CLAIMED[pid]
         if pid in ADDED:
             text = text + ' ' + ADDED[pid]
+        if pid in ADDED2:
+            text = text + ' ' + ADDED2[pid]
         checks.append({
             'property_id': pid,
             'quick_cmd': './check %s --tier quick' % pid,
